@@ -1066,6 +1066,9 @@ class Columns(Widget, WidgetContainerMixin, WidgetContainerListContentsMixin):
         best = None
         x = 0
         for i, (width, (w, _options)) in enumerate(zip(widths, self.contents)):
+            if width <= 0:
+                # hidden column: takes no room and no divider (as in render)
+                continue
             end = x + width
             if w.selectable():
                 if col != Align.RIGHT and (col == Align.LEFT or x > col) and best is None:
@@ -1114,6 +1117,9 @@ class Columns(Widget, WidgetContainerMixin, WidgetContainerListContentsMixin):
 
         x = 0
         for i, (width, w_size, (w, _)) in enumerate(zip(widths, size_args, self.contents)):
+            if width <= 0:
+                # hidden column: takes no room and no divider (as in render)
+                continue
             if col < x:
                 return False
             w = self.contents[i][0]  # noqa: PLW2901
